@@ -94,24 +94,29 @@ def glue_unit(n, lb_given, ub_given, kind="Square"):
                 bounds={"variables": n, "lb": lb_given, "ub": ub_given}, program={"fit": kind, "n": n}, replay=replay_fit)
 
 
-def noisefree_unit(sel):
+def noisefree_unit(sel, tp=None):
     def h(c):
         if c.mode != "sym":
             return
         from pygom.loss import base_loss
         # keyed flows: the same ODE, parameters and initial condition give the same solution (uniqueness)
-        with stubs.integrator_stubs(c, eig="fixed", keyed=True) as book, stubs.patched(*loss_patches(c)):
-            L = build_loss(c, "Square", sel, None, None, 2, False, "scalar")
-            # noise-free data: the observations ARE the trajectory for theta (first nS components of the augmented flow)
-            L.obj.sensitivity(L.theta_arg)
-            fl = _first_flow_of_call(book, None, c)
+        with stubs.integrator_stubs(c, eig="fixed", keyed="semantic") as book, stubs.patched(*loss_patches(c)):
+            L = build_loss(c, "Square", sel, tp, None, 2, False, "scalar")
+            # noise-free data: the observations ARE the trajectory of the model with the generating parameters bound
+            # BY NAME (independently of how the loss object routes theta): the flow of the augmented system is an
+            # uninterpreted function of (t; f(z0), z0, t0), so the loss reproduces it iff it binds the same values
+            m_ = L.model
+            m_.parameters = {"beta": L.bound["beta"], "gamma": L.bound["gamma"]}
+            z0 = arr(c, list(L.x0) + [0] * (NS * NP))
+            fl = book.start(z0, L.t0, fval=m_.ode_and_sensitivity(z0, L.t0))
             rows = [book.at(fl, ti) for ti in L.t]
             for i in range(2):
                 for j, s in enumerate(L.idx):
                     c.assume(close(L.y[i][j], rows[i][s], c))
-            lb = arr(c, [c.real("lb%d" % i) for i in range(2)])
-            ub = arr(c, [c.real("ub%d" % i) for i in range(2)])
-            for i in range(2):
+            nfree = len(L.theta)
+            lb = arr(c, [c.real("lb%d" % i) for i in range(nfree)])
+            ub = arr(c, [c.real("ub%d" % i) for i in range(nfree)])
+            for i in range(nfree):
                 c.assume(lb[i] <= L.theta[i])
                 c.assume(L.theta[i] <= ub[i])
             ms = MinimizeStub(c, eval_jac=True)
@@ -119,7 +124,8 @@ def noisefree_unit(sel):
                 out = L.obj.fit(L.theta_arg, lb, ub)
         c.reachable("fit returned")
         c.prove(out is L.theta_arg, "started at the generating parameters of noise-free data, fit returns them")
-    return Unit("C18.noisefree[states=%s]" % "+".join(sel), h, bounds={"times": 2, "observed_states": list(sel)}, program={"fit": "noisefree", "sel": list(sel)},
+    return Unit("C18.noisefree[states=%s,target=%s]" % ("+".join(sel), "all" if tp is None else "+".join(tp)), h,
+                bounds={"times": 2, "observed_states": list(sel), "target_param": tp}, program={"fit": "noisefree", "sel": list(sel), "tp": tp},
                 replay=replay_fit)
 
 
@@ -162,6 +168,16 @@ def replay_fit(vals, label):
     r = L.fit(np.array(th), lb, ub)
     if np.max(np.abs(np.asarray(r) - np.array(th))) > 1e-4:
         bad["noisefree_returns_start"] = list(map(float, r))
+    # the same with the free parameters named in NON-model order (theta, lb, ub follow the order of the names)
+    L2 = SquareLoss([th[1], th[0]], m, x0, 0.0, t, y, "J", target_param=["gamma", "beta"])
+    r2p = L2.fit(np.array([th[1], th[0]]), np.array([0.1, 0.05]), np.array([1.5, 0.5]))
+    if np.max(np.abs(np.asarray(r2p) - np.array([th[1], th[0]]))) > 1e-3:
+        bad["noisefree_returns_start[target_param=gamma,beta]"] = list(map(float, r2p))
+    L3 = SquareLoss([th[1]], m, x0, 0.0, t, y, "J", target_param=["gamma"])
+    m.parameters = th
+    r3 = L3.fit(np.array([th[1]]), np.array([0.1]), np.array([1.5]))
+    if np.max(np.abs(np.asarray(r3) - np.array([th[1]]))) > 1e-3:
+        bad["noisefree_returns_start[target_param=gamma]"] = list(map(float, r3))
     start = np.array([0.4, 0.2])
     r2 = L.fit(start, lb, ub)
     if np.any(r2 < lb - 1e-12) or np.any(r2 > ub + 1e-12):
@@ -184,7 +200,7 @@ class C18(Check):
 
     def units(self, tier, seed):
         us = [glue_unit(2, True, True), glue_unit(1, True, True), glue_unit(2, False, True), glue_unit(2, True, False), glue_unit(2, False, False),
-              noisefree_unit(("J",)), noisefree_unit(("R", "S"))]
+              noisefree_unit(("J",)), noisefree_unit(("R", "S")), noisefree_unit(("J", "S"), ("gamma", "beta")), noisefree_unit(("R",), ("gamma",))]
         if tier != "quick":
             us += [glue_unit(2, True, True, "Normal"), glue_unit(2, True, True, "Poisson"), noisefree_unit(("R", "S", "J"))]
         return us
